@@ -26,6 +26,7 @@ def run(ctx):
         "dump compared modulo one newline at the very end of the document",
         "unspecified: exception type for out-of-range (name, i); order_before/after(k, k) with k absent",
     ]
+    impl_layer(ctx, quick)
     if quick:
         rc.lts_legs(ctx, [("MC_ReproDoc_QA.cfg", (1, 2, 3), 2500, 60, 25, 1),
                           ("MC_ReproDoc_QB.cfg", (1, 2, 3), 2500, 60, 25, 1),
@@ -39,6 +40,22 @@ def run(ctx):
                           ("MC_ReproDoc_D.cfg", (1, 2), 10 ** 9, 200, 8, 4),
                           ("MC_ReproDoc_E.cfg", (1, 2), 10 ** 9, 300, 30, 3)])
         rc.trace_leg(ctx, 5000, 30, ALLOPS)
+
+
+def impl_layer(ctx, quick):
+    """design level: the two-structure implementation of the duplicate-tolerant paragraph class
+    (linked list + per-name node lists) refines the reference for every history; the pre-fix
+    order_first loop must be rejected by the same invariants (non-vacuity)"""
+    import core
+    cfgs = ["MC_ReproParaImpl_B.cfg"] + ([] if quick else ["MC_ReproParaImpl_C.cfg"])
+    n = 0
+    for cfg in cfgs:
+        r = ctx.tlc_must_hold("MC_ReproParaImpl", cfg, workers=4 if quick else None)
+        n += r.distinct
+    neg = ctx.tlc("MC_ReproParaImpl", "MC_ReproParaImpl_neg.cfg", workers=2, count=False)
+    if neg.violated not in ("Refines", "ByNameConsistent"):
+        raise core.MachineryError("negative control ForwardLoopInOrderFirst not rejected by the implementation-layer model")
+    ctx.extra["impl_layer"] = {"states": n, "negative_control_ForwardLoopInOrderFirst": neg.violated}
 
 
 def replay(ctx, case):
